@@ -26,6 +26,18 @@ ENTITY_CACHES = ('_find_sql_cache_', '_load_sql_cache_', '_batchload_sql_cache_'
 GROUPS = ('process', 'database', 'entity', 'attr', 'session')
 
 PARAM_VALUES = [0, 1, 50, 100, 150, 100.0, 99.5, 'n1', 'acct2', '', None, True, (100, 150), (50,), (1, 2, 3), 'zz', -1]
+ONEOFF_QUERIES = [
+    "select(x.id for x in Acct if x.bal > %(n)d * 50).order_by(1)[:]",
+    "select(x.id for x in Acct if x.bal < %(n)d * 50).order_by(1)[:]",
+    "select(x.id for x in Acct if x.bal == %(n)d * 50).order_by(1)[:]",
+    "select(x.id for x in Acct if x.bal != %(n)d * 50).order_by(1)[:]",
+    "select(x.id for x in Acct if x.id >= %(n)d).order_by(1)[:]",
+    "select(x.id for x in Acct if x.id <= %(n)d).order_by(1)[:]",
+    "select(i.id for i in Item if i.qty > %(n)d).order_by(1)[:]",
+    "select(i.id for i in Item if i.qty < %(n)d).order_by(1)[:]",
+    "Acct.select(lambda x: x.id > %(n)d).order_by(Acct.id)[:]",
+    "Acct.select(lambda x: x.id < %(n)d).order_by(Acct.id)[:]",
+]
 SLICES = [(0, 2), (1, 3), (0, 10), (2, 2), (-2, None), (None, 3), (1, None), (0, -1), (-3, -1)]
 RAW_SQLS = [
     'select id, bal from Acct where bal >= $x order by id',
@@ -260,6 +272,19 @@ class Exec(object):
                 else:
                     i.tags.remove(t)
             return 'tag'
+        if name == 'm_bulkdel':
+            # one DELETE statement built from a query: its cached SQL has to depend on everything the SELECT's does
+            # (attribute named at run time, type of the value - NULL tests are different SQL)
+            attr = ('qty', 'tag', 'id')[a % 3]
+            w = (0, 1, 'i0_1', 'new1', None, 2, 'zz', 7)[b % 8]
+            n = select(i for i in Item if getattr(i, attr) == w).delete(bulk=True)
+            return ['bulkdel', n, sorted(i.id for i in select(i for i in Item))]
+        if name == 'q_oneoff':
+            # a query whose code object exists only for this call (built from text, as in a shell or a
+            # template): nothing may be remembered under the identity of a code object that is gone
+            k = (a * 7 + b) % len(ONEOFF_QUERIES)
+            src = ONEOFF_QUERIES[k] % {'n': c % 5}
+            return eval(src, {'select': select, 'Acct': Acct, 'Item': Item})
         if name == 'm_rawwrite':
             db.execute('update Acct set bal = bal + 1 where id = $(1 + a % 3)')
             return 'rawwrite'
